@@ -18,6 +18,8 @@ def groups(n, seed):
             pk["report_rcond"] = True
         if i % 6 == 0:
             pk["display_interval"] = None
+        if i % 3 == 1:
+            pk["collect_path"] = True
         if i % 9 == 0:
             pk["scaling_type"] = [ScalingType.Nominal, ScalingType.GradJac, ScalingType.KKT][i % 3]
         if i % 11 == 0:
